@@ -21,7 +21,7 @@ from .. import units, guards
 MANIFEST = {
     "level": "other",
     "technique": "static analysis: symbolic evaluation of the conversion functions to terms, polynomial normal form modulo sin^2+cos^2=1 (unit-norm and matrix-inverse identities), typestate for to_positive(), unit (deg/rad) inference, effect analysis of the family (no write to arguments or module-level state); the Angle / Epoch operator semantics the evaluator assumes are verified (operator conformance, operands never written)",
-    "text": "Decides, from the source alone and for all real inputs at once, that each conversion is norm preserving, that each pair of conversions are inverse 3x3 matrices, that longitudes are normalised on every path, and that the separation / position-angle formulas equal the dot/cross product forms. Floating-point accuracy (1e-9) is not decided. The latitude-like result is read as asin(Z), atan2(Z, R) or atan(Z / R) of the same unit vector; the quotient form divides by the horizontal radius, which vanishes at the pole of the target system (zenith, ecliptic or galactic pole) - inside the property's domain - and is reported.",
+    "text": "Decides, from the source alone and for all real inputs at once, that each conversion is norm preserving, that each pair of conversions are inverse 3x3 matrices, that longitudes are normalised on every path, and that the separation / position-angle formulas equal the dot/cross product forms. Floating-point accuracy (1e-9) is not decided. The latitude-like result is read as asin(Z), atan2(Z, R) or atan(Z / R) of the same unit vector; the quotient form divides by the horizontal radius, which vanishes at the pole of the target system (zenith, ecliptic or galactic pole) - inside the property's domain - and is reported. A quotient whose divisor is the cosine of a latitude-like argument, of the observer's latitude or of the computed latitude is accepted only inside an atan2 argument (where tan = sin/cos is removable by scaling both arguments); elsewhere it is 0/0 at a pole the property includes and is reported.",
     "note": "Trusted: Python ast, the term/polynomial engine (ring axioms over Q, sin^2+cos^2=1, addition theorems, tan=sin/cos), semantics of Angle read from Angle.py (checked by C03's R-OPCONF). Undecided: rounding near poles and the seam, circle_diameter bounds, antisymmetry beyond the formula identity.",
 }
 
